@@ -1034,6 +1034,16 @@ func init() {
 					}
 				}
 			}
+			// completion used twice on one line with an edit in between; the first candidate
+			// offered is the typed word itself
+			for _, n := range []int{1, 2, 3} {
+				if n == 3 && tier != "thorough" {
+					continue
+				}
+				j := mkJob(".ZZ_C14_Again", shellSetup, "n", itoa(n))
+				j.Reach = []string{"all-keys"}
+				jobs = append(jobs, j)
+			}
 			return jobs
 		},
 		Assumptions: []string{
